@@ -93,13 +93,13 @@ CLAIMED["C17"] = dict(
 CLAIMED["C12"] = dict(
     engine="ms",
     technique='Coq proof on the L2 multistore model (a commit adds exactly the new version, removes exactly the released one, leaves the others untouched) + shadow-copy oracle and correspondence on rootmulti/iavl/transient',
-    text='Proved on the model of rootmulti + iavl wrapper over a contract-level IAVL: what SaveVersion + the pruning rule do to the set of versions on disk, that working-tree writes never touch the disk, transient reset. Checked on the implementation for every history: version +1, hash reported by LastCommitID and after reopen, content of every retained version, pruned versions unreadable, transient empty.',
+    text='Proved on the model of rootmulti + iavl wrapper over a contract-level IAVL: what SaveVersion + the pruning rule do to the set of versions on disk, that working-tree writes never touch the disk, transient reset; for the whole multistore with any number of substores: after a completed commit, reopening gives every substore at the new version with exactly its working content and the same commit id (C12_multistore_commit_durable). Checked on the implementation for every history: version +1, hash reported by LastCommitID and after reopen, content of every retained version, pruned versions unreadable, transient empty.',
     note="Trusted: Coq kernel, extraction, OCaml/Go drivers, the crash-instrumented dbm.DB wrapper; tendermint/iavl v0.12.4 and tm-db are modelled by their contracts (one batch = one atomic write unit; IAVL node versions are not part of the model's hash). Known findings F8, F17a/b, F18a/b, F20 are listed in known_findings.json.",
     design_ref="§6 C12")
 CLAIMED["C13"] = dict(
     engine="ms",
     technique='Coq proof with the crash points enumerated in the theorem (any prefix of the write units reopens the old version when keepRecent >= 1; refuted with a witness for keepRecent = 0) + crash injection after every DB write unit on the implementation',
-    text="Proved: after any prefix of a substore commit's atomic write units the previous version loads with its old content if keepRecent >= 1; the statement is false for keepRecent = 0 (witness = finding F8); replay onto an already saved version is idempotent. On the implementation every commit write unit of every history is used as a crash point on a MemDB wrapper, the store is reopened, compared with old/new shadow content, the block re-executed and its hash compared with an uninterrupted twin.",
+    text="Proved: after any prefix of a substore commit's atomic write units the previous version loads with its old content if keepRecent >= 1; for the whole multistore with any number of substores: a commit cut short at ANY write unit reopens every substore at the old version with its old content (C13_multistore_crash_safe); the statement is false for keepRecent = 0 (witness = finding F8); replay onto an already saved version is idempotent. On the implementation every commit write unit of every history is used as a crash point on a MemDB wrapper, the store is reopened, compared with old/new shadow content, the block re-executed and its hash compared with an uninterrupted twin.",
     note="Trusted: Coq kernel, extraction, OCaml/Go drivers, the crash-instrumented dbm.DB wrapper; tendermint/iavl v0.12.4 and tm-db are modelled by their contracts (one batch = one atomic write unit; IAVL node versions are not part of the model's hash). Known findings F8, F17a/b, F18a/b, F20 are listed in known_findings.json.",
     design_ref="§6 C13")
 CLAIMED["C14"] = dict(
